@@ -186,6 +186,17 @@ func gen(r *fw.RNG, o Opts, depth int, inRec bool) *Sel {
 			}
 			return &Sel{Kind: "range", From: from, To: to, Next: gen(r, o, depth+1, inRec)}
 		case 7, 8:
+			if o.Hostile && inRec && r.Chance(1, 4) {
+				// degenerate unions: a single member, or nothing but edges
+				switch r.Intn(3) {
+				case 0:
+					return &Sel{Kind: "union", Members: []*Sel{{Kind: "edge"}}}
+				case 1:
+					return &Sel{Kind: "union", Members: []*Sel{{Kind: "edge"}, {Kind: "edge"}}}
+				default:
+					return &Sel{Kind: "union", Members: []*Sel{gen(r, o, depth+1, inRec)}}
+				}
+			}
 			n := 2 + r.Intn(2)
 			ms := make([]*Sel, 0, n)
 			for i := 0; i < n; i++ {
